@@ -134,7 +134,7 @@ def _implies(cfg, rd, expr, pol, nid, want_text, want_pol, depth):
 
 
 # ------------------------------------------------------------------ R01.c / R03.d
-def rule_alias_single_assignment(repo: Repo, chk: Check, rule: str, floor_alias=2, literal_only=False):
+def rule_alias_single_assignment(repo: Repo, chk: Check, rule: str, floor_alias=2, literal_only=False, only_fn=None):
     """Every store that makes one value share another value's register/literal
     (``X.code_expr = <other>``) and every propagation of a constant to the
     readers of a variable is control-dependent on ``not X.is_overwritten``."""
@@ -142,6 +142,8 @@ def rule_alias_single_assignment(repo: Repo, chk: Check, rule: str, floor_alias=
     n_alias = n_fresh = 0
     for fn in g.funcs.values():
         if isinstance(fn, ast.Lambda):
+            continue
+        if only_fn is not None and fn.qual != only_fn:
             continue
         stores = [st for st in ast.walk(fn) if isinstance(st, ast.Assign) and enclosing_def(st) is fn
                   and any(isinstance(t, ast.Attribute) and t.attr in ("code_expr",) or
@@ -183,6 +185,8 @@ def rule_alias_single_assignment(repo: Repo, chk: Check, rule: str, floor_alias=
                 _alias_source_clause(chk, rule, fn, st, tgt, recv, key, where)
     if n_alias < floor_alias:
         raise AnalysisError(f"{rule}: only {n_alias} aliasing stores recognised (expected >= {floor_alias}); the rule lost its anchor")
+    if only_fn is not None:
+        return
     # constant propagation to the readers of a variable
     cp = repo.mod("compile_pass")
     found = 0
@@ -204,10 +208,21 @@ def rule_alias_single_assignment(repo: Repo, chk: Check, rule: str, floor_alias=
                               f"a variable assigned twice would be folded to its first value", None, f"{cp.path}:{c.lineno} in {fn.qual}")
     if found < 1:
         raise AnalysisError(f"{rule}: constant propagation through variables (loop over nodes_reading calling set_constant) not found")
+    rule_forwarding_skips_unused(repo, chk, rule)
+
+
+def rule_forwarding_skips_unused(repo: Repo, chk: Check, rule: str):
     # 'not is_overwritten' counts the writes that set_name_written recorded, and that function ignores nodes marked unused: the pass
     # that forwards the constant must skip those nodes too, or an assignment in dead code is forwarded over the live one
+    cp = repo.mod("compile_pass")
     snw = cp.func("CodeData.set_name_written")
-    ignores_unused = any(isinstance(i, ast.If) and "is_used" in norm(i.test) and any(isinstance(x, ast.Return) for x in i.body) for i in ast.walk(snw))
+    scfg, _srd = fn_ctx(snw)
+    records = [c for c in ast.walk(snw) if isinstance(c, ast.Call) and isinstance(c.func, ast.Attribute) and c.func.attr == "append" and "nodes_writing" in norm(c.func.value)]
+    if not records:
+        raise AnalysisError(f"{rule}: set_name_written: the statement that records a write (nodes_writing.append) was not found")
+    ignores_unused = all(any(p_ and norm(t_).endswith(".is_used") for t_, p_ in guard_atoms(scfg, i_)) for c in records for i_ in live_ids(scfg, c)[:1])
+    if not ignores_unused:
+        chk.ok(rule, "compile_pass:set_name_written counts writes in unused nodes too", None, vacuous=True)
     if ignores_unused:
         for fn in cp.funcs.values():
             cls = getattr(fn, "cls", None)
@@ -462,6 +477,23 @@ def rule_loop_labels(repo: Repo, chk: Check, rule: str):
                 ok = d in E and jumps and E.index(d) > max(jumps)
                 chk.judge(rule, key + " [break label follows the back jump]", bool(ok),
                           f"'break' jumps to {var}, which is not placed after the loop's back jump", {"end_section": kinds}, d.where())
+                # the back jump itself is emitted whenever the loop is: a jump that is left out under a condition lets the last iteration run on
+                # into whatever follows the loop (for a top-level 'while True:' that is the first function)
+                for i in jumps:
+                    js = E[i]
+                    jid = live_ids(cfg, js.call)
+                    lid = live_ids(cfg, d.call)
+                    if not jid or not lid:
+                        continue
+                    gj = {(norm(t_), p_) for t_, p_ in guard_atoms(cfg, jid[0])}
+                    gl = {(norm(t_), p_) for t_, p_ in guard_atoms(cfg, lid[0])}
+                    extra = sorted(f"{t_}{'' if p_ else ' is False'}" for t_, p_ in gj - gl)
+                    if extra:
+                        chk.unresolved(rule, key + " [the back jump is emitted with the loop]",
+                                       f"the jump back to the loop head is emitted only under {extra}; whether the loop body can never reach its end in the other case "
+                                       f"is not something this rule can establish", js.where())
+                    else:
+                        chk.ok(rule, key + " [the back jump is emitted with the loop]", None)
 
 
 # ------------------------------------------------------------------ R05.d / R06.b
@@ -718,10 +750,19 @@ def rule_module_lifetime(repo: Repo, chk: Check, rule: str):
                    and ".name" in norm(tst.left)]
         # (a) inside 'for n in self.nodes_writing' under isinstance(n.scope(), Module)
         loopvars = []
+        partial_iter = None
         p = st
         while p is not None and p is not lf:
             if isinstance(p, ast.For) and "nodes_writing" in norm(p.iter) and isinstance(p.target, ast.Name):
-                loopvars.append(p.target.id)
+                it_ = p.iter
+                while isinstance(it_, ast.Call) and norm(it_.func) in ("list", "tuple", "sorted", "reversed", "iter", "set") and it_.args:
+                    it_ = it_.args[0]
+                if isinstance(it_, ast.Subscript):
+                    # only some of the writers are looked at: a global that is (also) assigned inside a function defined further up
+                    # has its first writer there and is missed
+                    partial_iter = norm(p.iter)
+                else:
+                    loopvars.append(p.target.id)
             p = getattr(p, "parent", None)
         ok = any(pol and any(_is_module_scope_test(tst, lv) for lv in loopvars) for tst, pol in atoms)
         # (a') the scope is held in a local: isinstance(V, Module) where V = n.scope(), possibly re-defined for function
@@ -746,6 +787,12 @@ def rule_module_lifetime(repo: Repo, chk: Check, rule: str):
                 if len(g.generators) == 1 and not g.generators[0].ifs and "nodes_writing" in norm(g.generators[0].iter) and isinstance(g.generators[0].target, ast.Name) \
                         and _is_module_scope_test(g.elt, g.generators[0].target.id):
                     ok = True
+        if partial_iter and not ok:
+            chk.bad(rule, "types:IC10Register.lifetime:module-level values live for the whole program",
+                    f"only {partial_iter} is examined for a writer at module level: a global whose first recorded assignment sits inside a function (assigned there via 'global', "
+                    f"the function defined above the module-level assignment) gets a line interval and shares its register", {"iterates": partial_iter},
+                    f"{t.path}:{st.lineno} in IC10Register.lifetime")
+            continue
         chk.judge(rule, "types:IC10Register.lifetime:module-level values live for the whole program", ok and not by_name,
                   "the unbounded lifetime is assigned " + (f"only for the module whose name satisfies {by_name}" if by_name else "without testing that a writer's scope is a Module")
                   + ": globals of library modules get line intervals and two of them (or a global and a function local) can share a register",
